@@ -8,6 +8,7 @@ import (
 	"errors"
 	"io/fs"
 	"os"
+	"path/filepath"
 	"runtime"
 	"strings"
 	"sync"
@@ -19,17 +20,25 @@ import (
 
 // Event is one mutating filesystem operation.
 type Event struct {
-	Seq    int    `json:"seq"`
-	Task   string `json:"task"`
-	Pid    int    `json:"pid"`
-	Op     string `json:"op"`
-	Path   string `json:"path"`
-	Path2  string `json:"path2,omitempty"`
-	Size   int    `json:"size,omitempty"`
-	Fault  string `json:"fault,omitempty"`
-	Err    string `json:"err,omitempty"`
-	PKind  string `json:"pkind,omitempty"`
-	Site   string `json:"site,omitempty"` // source file of the calling martian code
+	Seq   int    `json:"seq"`
+	Task  string `json:"task"`
+	Pid   int    `json:"pid"`
+	Op    string `json:"op"`
+	Path  string `json:"path"`
+	Path2 string `json:"path2,omitempty"`
+	Size  int    `json:"size,omitempty"`
+	Fault string `json:"fault,omitempty"`
+	Err   string `json:"err,omitempty"`
+	PKind string `json:"pkind,omitempty"`
+	Site  string `json:"site,omitempty"` // source file of the calling martian code
+	// for remove / removeall: what the call found at the path just before it ran
+	RmFiles     int   `json:"rm_files,omitempty"` // regular files and symlinks
+	RmFileBytes int64 `json:"rm_file_bytes,omitempty"`
+	RmDirs      int   `json:"rm_dirs,omitempty"`
+	RmDirBytes  int64 `json:"rm_dir_bytes,omitempty"`
+	// if the path is a symlink to a directory: what a walk that follows it finds
+	RmLinkEntries int   `json:"rm_link_entries,omitempty"`
+	RmLinkBytes   int64 `json:"rm_link_bytes,omitempty"`
 }
 
 type World struct {
@@ -43,8 +52,8 @@ type World struct {
 	After  func(ev *Event)
 	// Counters of faults that actually fired.
 	FaultErrs, FaultTorn int
-	Outside   []string // mutating calls outside Root (must stay empty)
-	AllowOutside []string
+	Outside              []string // mutating calls outside Root (must stay empty)
+	AllowOutside         []string
 }
 
 var W = &World{}
@@ -101,7 +110,6 @@ func rel(p string) string {
 	}
 	return p
 }
-
 
 func injected(op, path string) error {
 	return &fs.PathError{Op: op, Path: path, Err: syscall.EIO}
@@ -265,11 +273,61 @@ func MkdirTemp(dir, pattern string) (string, error) {
 }
 
 func Remove(name string) error {
-	return simple("remove", name, "", func() error { return os.Remove(name) })
+	return simpleRm("remove", name, func() error { return os.Remove(name) })
 }
 
 func RemoveAll(name string) error {
-	return simple("removeall", name, "", func() error { return os.RemoveAll(name) })
+	return simpleRm("removeall", name, func() error { return os.RemoveAll(name) })
+}
+
+// simpleRm is simple() for removals: it measures what is about to be removed.
+func simpleRm(op, name string, do func() error) error {
+	ev, fault, sim := begin(op, name, "", 0)
+	if !sim {
+		return do()
+	}
+	if err := before(ev, nil); err != nil {
+		finish(ev, err)
+		return err
+	}
+	if fault == vrt.FaultErr {
+		W.mu.Lock()
+		W.FaultErrs++
+		W.mu.Unlock()
+		ev.Fault = "eio"
+		err := injected(op, name)
+		finish(ev, err)
+		return err
+	}
+	filepath.Walk(name, func(p string, info os.FileInfo, err error) error {
+		if err != nil || info == nil {
+			return nil
+		}
+		if info.IsDir() {
+			ev.RmDirs++
+			ev.RmDirBytes += info.Size()
+		} else {
+			ev.RmFiles++
+			ev.RmFileBytes += info.Size()
+		}
+		return nil
+	})
+	if li, lerr := os.Lstat(name); lerr == nil && li.Mode()&os.ModeSymlink != 0 {
+		if ti, terr := os.Stat(name); terr == nil && ti.IsDir() {
+			if target, rerr := filepath.EvalSymlinks(name); rerr == nil {
+				filepath.Walk(target, func(p string, info os.FileInfo, err error) error {
+					if err == nil && info != nil {
+						ev.RmLinkEntries++
+						ev.RmLinkBytes += info.Size()
+					}
+					return nil
+				})
+			}
+		}
+	}
+	err := do()
+	finish(ev, err)
+	return err
 }
 
 func Rename(o, n string) error {
